@@ -1761,6 +1761,8 @@ def main(argv=None):
     base.L()
     jobs, summary = make_jobs(args.tier, args.seed)
     budget = 520.0 if args.tier == "thorough" else 48.0
+    # maintenance only (tools/adopt_fingerprints.py): a longer deadline so that the deterministic families complete on a loaded machine
+    budget = float(os.environ.get("VERIF_ADOPT_BUDGET_S", budget))
     deadline = time.time() + budget
     total = Stats()
     nproc = min(16, os.cpu_count() or 1)
